@@ -110,6 +110,7 @@ func registerIntrinsics(ex *Explorer) {
 		// batched: consecutive assertions with no change of the path condition in
 		// between are decided by one query (and individually only if that one is sat)
 		in.pending = append(in.pending, pendingAssert{id, c})
+		in.asserted = append(in.asserted, c)
 		return nil
 	})
 	reg("Cover", func(in *Interp, fn *ssa.Function, a []Value) Value {
@@ -152,6 +153,18 @@ func registerIntrinsics(ex *Explorer) {
 		in.mode[str(a[0])] = int(in.Concretize(a[1].(*sym.Term)))
 		return nil
 	})
+	reg("AndB", func(in *Interp, fn *ssa.Function, a []Value) Value {
+		return in.F.And(a[0].(*sym.Term), a[1].(*sym.Term))
+	})
+	reg("OrB", func(in *Interp, fn *ssa.Function, a []Value) Value {
+		return in.F.Or(a[0].(*sym.Term), a[1].(*sym.Term))
+	})
+	reg("NotB", func(in *Interp, fn *ssa.Function, a []Value) Value { return in.F.Not(a[0].(*sym.Term)) })
+	ite := func(in *Interp, fn *ssa.Function, a []Value) Value {
+		return in.F.Ite(a[0].(*sym.Term), a[1].(*sym.Term), a[2].(*sym.Term))
+	}
+	reg("IteU64", ite)
+	reg("IteI64", ite)
 	reg("Monitor", func(in *Interp, fn *ssa.Function, a []Value) Value {
 		return in.F.Int(int64(in.monitor[str(a[0])]))
 	})
